@@ -28,14 +28,15 @@ def repo_problems():
 EXPECT = {}     # problem name -> list of "expect" trace lines placed before the problem's own lines
 
 
-def run_problems(drv, problems, rd, timeout_s, jobs=12):
+def run_problems(drv, problems, rd, timeout_s, jobs=12, extra_args=None):
     """runs plan_driver on every problem; returns the concatenated trace lines and the per-problem verdicts"""
     os.makedirs(rd, exist_ok=True)
 
     def one(i_p):
         i, (name, files) = i_p
         out = os.path.join(rd, 'p%04d.ndjson' % i)
-        rc, txt = vlib.run([drv, out, str(timeout_s), name] + files, timeout=timeout_s + 90, check=False)
+        rc, txt = vlib.run([drv, out, str(timeout_s), name] + files + (extra_args(name) if extra_args else []),
+                           timeout=timeout_s * 40 + 90 if extra_args else timeout_s + 90, check=False)
         lines = vlib.read_lines(out) if os.path.exists(out) else []
         if not any('"e":"done"' in ln or '"e":"timeout"' in ln or '"e":"abort"' in ln for ln in lines):
             lines.append(json.dumps({'e': 'abort', 'name': name, 'phase': 'unknown', 'sig': rc}))
@@ -103,6 +104,12 @@ def check_leaks(ev, prop, results, cfg):
 
 def signature(ev, exec_lines, idx, r=None):
     contract = r['contracts'][-1][0] if r and r.get('contracts') else 'Structure'
+    if ev.get('e', '').startswith('x_'):
+        # executor events: what happened earlier in the execution is part of the identity of the failure
+        before = exec_lines[:idx]
+        ctx = 'after-failure' if any('"e":"x_failure"' in ln for ln in before) else \
+              'after-delay' if any('"e":"x_dont_' in ln for ln in before) else 'plain'
+        return 'exec:%s:%s:%s' % (ev['e'], contract, ctx)
     fam = re.sub(r'[_\d]+$', '', ev.get('name', '?'))
     return 'plan:%s:%s:%s' % (ev.get('e', '?'), contract, fam)
 
